@@ -737,7 +737,11 @@ func (w *world) history(c cfg) {
 			d := kcp.VerifKCPState(e.k)
 			sz := []int{0, 1, int(d.Mss), 4096, 70000}[g.Intn(5)]
 			if g.Chance(30) {
-				w.simple(e, "peeksize", func() string { return fmt.Sprintf("r=%d", e.k.PeekSize()) })
+				ps := 0
+				w.simple(e, "peeksize", func() string { ps = e.k.PeekSize(); return fmt.Sprintf("r=%d", ps) })
+				if ps > 0 && g.Chance(60) {
+					sz = ps // what UDPSession.Read does: a buffer of exactly PeekSize() bytes
+				}
 			}
 			w.recv(e, sz)
 		case r < 84:
@@ -864,8 +868,13 @@ func (w *world) msgTooBig(e *endpoint, peer *kcp.VerifKCPDump) bool {
 
 func (w *world) recvAll(e *endpoint) {
 	for i := 0; i < 100000 && !w.aborted; i++ {
-		if e.k.PeekSize() < 0 {
+		ps := e.k.PeekSize()
+		if ps < 0 {
 			return
+		}
+		if i%2 == 1 && ps > 0 {
+			w.recv(e, ps) // session style: exactly PeekSize() bytes
+			continue
 		}
 		w.recv(e, 70000*4)
 	}
